@@ -325,6 +325,9 @@ func (r *R) Build(c *BuildCtx) error {
 			return &ut.SafeMsg{Msg: r.S[1]}
 		case "hinter":
 			return &ut.Hinter{Msg: r.S[1], Hint: r.Strs[0], Detail: r.Strs[1]}
+		case "dual":
+			// the wrapper type of uwrap "full", without a cause: a leaf
+			return &ut.WFull{Msg: r.S[1]}
 		}
 	case "wrap":
 		e := errors.Wrap(kid(0), r.S[0])
@@ -481,6 +484,8 @@ func (r *R) Build(c *BuildCtx) error {
 			return &ut.WSafeDet{Msg: r.S[1], Details: r.Strs, Err: k}
 		case "as":
 			return &ut.WAs{Msg: r.S[1], Err: k}
+		case "nocmp":
+			return ut.WNoCmp{Msg: r.S[1], Err: k, Junk: []int{1}}
 		}
 	case "transfer":
 		return transfer(kid(0), r.Procs)
